@@ -224,6 +224,31 @@ fn mutate(s: &Synth, rng: &mut Rng) -> (&'static str, Vec<u8>) {
             if jv == 3 {
                 j[8..12].copy_from_slice(&3u32.to_le_bytes());
             }
+            // header fields that lie: the claimed entry count / state / generation are overwritten after
+            // the checksum was computed (checksum and complement stay a consistent pair), or the checksum
+            // is recomputed over as much of the slot as the claimed count still allows
+            if rng.chance(1, 3) {
+                let count = *rng.pick(&[1025u32, 1531, 1532, 1533, 2048, 4096, 65535, 1 << 20, 1 << 28, u32::MAX]);
+                j.resize(3 * BLOCK, 0);
+                match rng.below(4) {
+                    0 => j[28..32].copy_from_slice(&count.to_le_bytes()),
+                    1 => {
+                        j[28..32].copy_from_slice(&count.to_le_bytes());
+                        j[24..28].copy_from_slice(&1u32.to_le_bytes());
+                    }
+                    2 => j[24..28].copy_from_slice(&rng.pick(&[2u32, 3, u32::MAX]).to_le_bytes()),
+                    _ => j[16..24].copy_from_slice(&0u64.to_le_bytes()),
+                }
+                if rng.chance(1, 2) {
+                    let claimed = u32::from_le_bytes(j[28..32].try_into().unwrap()) as usize;
+                    let len = (40 + claimed.saturating_mul(8)).min(j.len());
+                    j[12..16].fill(0);
+                    j[32..36].fill(0);
+                    let c = indep::journal_checksum(&j[..len]);
+                    j[12..16].copy_from_slice(&c.to_le_bytes());
+                    j[32..36].copy_from_slice(&(!c).to_le_bytes());
+                }
+            }
             let slot = rng.usize_below(2);
             let off = (1 + slot * 3) * BLOCK;
             let n = j.len().min(3 * BLOCK);
@@ -386,7 +411,7 @@ pub fn child(args: &Args) -> ! {
 pub fn run(args: &Args) -> Report {
     let mut report = Report::new(
         "fuzzopen",
-        "device images synthesised by the independent codec (v1/v2/v3, 17-128 blocks, records of 1-3 blocks, complete retirement extents, journal absent/clear/active) and mutated by 21 mutators: random bytes; bit flips anywhere / biased to metadata, journal and block heads; block swap/duplicate/zero; size changes (<=reserved area, non-multiple, truncated); structure-aware forgeries with recomputed tokens and checksums (value_len 0/2^32/2^63/MAX/beyond device, key_len 0/4066+/65535, records swallowing neighbours, marker remaining 0/huge/overflowing/state bytes, journal extents below block 16/beyond device/overlapping/1025 entries/generation MAX/unknown version, metadata version 0/4, wrong device size, generation MAX, wrong block size); bad or zeroed signatures; zeroed extent tails. Each image is opened in a child under catch_unwind + panic hook with a probe workload on stores that open; aborts and hangs are caught by the parent. distinct non-trivial = (mutator, version, outcome, size class) cells; non-trivial = everything except untouched valid images",
+        "device images synthesised by the independent codec (v1/v2/v3, 17-128 blocks, records of 1-3 blocks, complete retirement extents, journal absent/clear/active) and mutated by 21 mutators: random bytes; bit flips anywhere / biased to metadata, journal and block heads; block swap/duplicate/zero; size changes (<=reserved area, non-multiple, truncated); structure-aware forgeries with recomputed tokens and checksums (value_len 0/2^32/2^63/MAX/beyond device, key_len 0/4066+/65535, records swallowing neighbours, marker remaining 0/huge/overflowing/state bytes, journal extents below block 16/beyond device/overlapping/1025 entries/generation MAX/unknown version, journal header fields that lie about entry count (1025..2^32-1), state or generation with the checksum pair left consistent or recomputed, metadata version 0/4, wrong device size, generation MAX, wrong block size); bad or zeroed signatures; zeroed extent tails. Each image is opened in a child under catch_unwind + panic hook with a probe workload on stores that open; aborts and hangs are caught by the parent. distinct non-trivial = (mutator, version, outcome, size class) cells; non-trivial = everything except untouched valid images",
     );
     let shard = args.num("shard", 0);
     let shards = args.num("shards", 1).max(1);
